@@ -167,16 +167,44 @@ func vfC04Gen(rt *rapid.T) vfC04Case {
 		vfC04UnsubCmd, vfC04UnsubCmd, vfC04UnsubCmd, vfC04UnsubCmd,
 		vfC04ClientSub, vfC04ClientSub, vfC04ClientUnsub, vfC04ClientUnsub,
 		vfC04NodeSub, vfC04NodeUnsub,
-		vfC04Disconnect, vfC04TransportClose,
+		vfC04Disconnect, // Disconnect or transport close (drawn below)
 		vfC04Advance, vfC04Advance, vfC04Advance,
 		vfC04Release, vfC04Release, vfC04Release, vfC04Release, vfC04Release,
-		vfC04Checkpoint,
+		vfC04Checkpoint, vfC04Checkpoint,
 	}
-	for i := 0; i < n; i++ {
-		s := vfC04Step{Kind: rapid.SampledFrom(kinds).Draw(rt, "kind")}
+	for len(c.Steps) < n {
 		// bias towards connection 0 / channel 0 so that operations overlap on the same pair
-		s.Conn = rapid.SampledFrom([]int{0, 0, 0, 1, 2}).Draw(rt, "conn") % c.NConns
-		s.Ch = rapid.SampledFrom([]int{0, 0, 0, 1, 2}).Draw(rt, "ch") % c.NChans
+		conn := rapid.SampledFrom([]int{0, 0, 0, 1, 2}).Draw(rt, "conn") % c.NConns
+		ch := rapid.SampledFrom([]int{0, 0, 0, 1, 2}).Draw(rt, "ch") % c.NChans
+		// 15% of the draws are phrases aimed at specific windows; they expand to ordinary steps
+		if ph := rapid.SampledFrom([]int{9, 9, 9, 9, 9, 9, 9, 9, 9, 9, 9, 9, 9, 9, 9, 9, 9, 9, 9, 9, 9, 9, 9, 9, 9, 9, 9, 9, 9, 9, 9, 9, 9, 9, 3, 3, 2, 2, 1, 0}).Draw(rt, "phrase"); ph < 4 {
+			parkedSub := vfC04Step{Kind: vfC04SubCmd, Conn: conn, Ch: ch, Mode: rapid.SampledFrom([]int{1, 1, 3, 0}).Draw(rt, "pmode")}
+			if parkedSub.Mode == 0 {
+				parkedSub.GateH, parkedSub.GateP = true, true // parks after the hub registration when the channel allows it
+			}
+			adv := vfC04Step{Kind: vfC04Advance, AdvMs: rapid.SampledFrom([]int{5000, 5000, 6000, 2000}).Draw(rt, "padv")}
+			switch ph {
+			case 0: // close() itself runs into the wait gate of the parked subscribe, which resumes afterwards
+				c.Steps = append(c.Steps, parkedSub,
+					vfC04Step{Kind: rapid.SampledFrom([]int{vfC04Disconnect, vfC04TransportClose}).Draw(rt, "pclose"), Conn: conn, Quiet: true},
+					adv, vfC04Step{Kind: vfC04Release, Idx: 0})
+			case 1: // unsubscribe waits for the parked subscribe until the wait gate times out
+				c.Steps = append(c.Steps, parkedSub,
+					vfC04Step{Kind: rapid.SampledFrom([]int{vfC04UnsubCmd, vfC04ClientUnsub}).Draw(rt, "punsub"), Conn: conn, Ch: ch},
+					adv, vfC04Step{Kind: vfC04Release, Idx: 0})
+			case 2: // resubscribe while an unsubscribe is parked between its client-state delete and its hub removal
+				c.Steps = append(c.Steps, vfC04Step{Kind: vfC04SubCmd, Conn: conn, Ch: ch},
+					vfC04Step{Kind: vfC04UnsubCmd, Conn: conn, Ch: ch, GateR: true},
+					vfC04Step{Kind: rapid.SampledFrom([]int{vfC04SubCmd, vfC04ClientSub}).Draw(rt, "presub"), Conn: conn, Ch: ch},
+					vfC04Step{Kind: vfC04Release, Idx: 0})
+			default: // unsubscribe issued while the subscribe is parked, released before the wait gate expires
+				c.Steps = append(c.Steps, parkedSub,
+					vfC04Step{Kind: rapid.SampledFrom([]int{vfC04UnsubCmd, vfC04ClientUnsub, vfC04NodeUnsub}).Draw(rt, "punsub"), Conn: conn, Ch: ch, User: c.Users[conn]},
+					vfC04Step{Kind: vfC04Release, Idx: 0})
+			}
+			continue
+		}
+		s := vfC04Step{Kind: rapid.SampledFrom(kinds).Draw(rt, "kind"), Conn: conn, Ch: ch}
 		s.NoSettle = rapid.IntRange(0, 3).Draw(rt, "nosettle") == 0
 		switch s.Kind {
 		case vfC04SubCmd:
@@ -193,6 +221,7 @@ func vfC04Gen(rt *rapid.T) vfC04Case {
 		case vfC04UnsubCmd, vfC04ClientUnsub, vfC04NodeUnsub:
 			s.GateR = rapid.IntRange(0, 2).Draw(rt, "gateR") == 0
 		case vfC04Disconnect, vfC04TransportClose:
+			s.Kind = rapid.SampledFrom([]int{vfC04Disconnect, vfC04TransportClose}).Draw(rt, "closeKind")
 			s.Quiet = rapid.Bool().Draw(rt, "quiet")
 		case vfC04Advance:
 			s.AdvMs = rapid.SampledFrom([]int{100, 1000, 2000, 5000, 5000, 6000}).Draw(rt, "adv")
